@@ -51,6 +51,7 @@ func concScenarios() []concScenario {
 		{Name: "update-update-two-sessions", Accounts: one, Pre: []Op{crA1, crA2, upd0}, Conc: []Op{usageOp("update", 0, 1, 100, 100, 600), usageOp("update", 1, 1, 50, 0, 601)}},
 		{Name: "update-release", Accounts: one, Pre: []Op{crA1, upd0}, Conc: []Op{usageOp("update", 0, 1, 100, 60, 600), usageOp("release", 0, 1, -1, 40, 601, "FINAL")}},
 		{Name: "update-recharge", Accounts: []Account{{supiA, 1, "150", "2"}}, Pre: []Op{crA1, usageOp("update", 0, 1, 100, 0, 500)}, Conc: []Op{usageOp("update", 0, 1, 100, 75, 600), {K: "recharge", U: 0, RG: 1, Amt: 400}}},
+		{Name: "update-notify", Accounts: []Account{{supiA, 1, "150", "2"}}, Pre: []Op{crA1, usageOp("update", 0, 1, 100, 0, 500), {K: "recharge", U: 0, RG: 1, Amt: 400}}, Conc: []Op{usageOp("update", 0, 1, 100, 75, 600), {K: "recharge", U: 0, RG: 1}}},
 		{Name: "update-update-two-subscribers", Accounts: one, Pre: []Op{crA1, crB, upd0, usageOp("update", 1, 1, 70, 0, 501)}, Conc: []Op{usageOp("update", 0, 1, 100, 100, 600), usageOp("update", 1, 1, 30, 70, 601)}},
 		{Name: "partial-record-two-subscribers", Accounts: one, Pre: []Op{crA1, crB}, Conc: []Op{usageOp("update", 0, 1, 100, 0, 600, "VOLIMM"), usageOp("update", 1, 1, 30, 0, 601, "VOLIMM")}},
 		{Name: "create-create-create", Accounts: one, Conc: []Op{crA1, crA2, crB}},
@@ -78,7 +79,17 @@ func respBrief(st Step) string {
 	return fmt.Sprintf("%s->%d%s %s", st.Op.K, st.Resp.Code, ref, strings.Join(us, ","))
 }
 
-func concScenarioFn(sc concScenario, perm []int) func() schedScenario {
+func concScenarioFn(sc concScenario, perm []int, noCredit ...bool) func() schedScenario {
+	if len(noCredit) > 0 && noCredit[0] {
+		// the same requests in a world where the external credit never happens (the notification is still sent)
+		conc := append([]Op(nil), sc.Conc...)
+		for i := range conc {
+			if conc[i].K == "recharge" {
+				conc[i].Amt = 0
+			}
+		}
+		sc.Conc = conc
+	}
 	return func() schedScenario {
 		supis := []string{supiA, supiB}
 		if sc.Supis != nil {
@@ -293,12 +304,24 @@ func init() {
 		schedScenarios["c09-"+sc.Name] = concScenarioFn(sc, nil)
 		for _, perm := range permutationsInt(len(sc.Conc)) {
 			schedScenarios["c09-"+sc.Name+"#"+permKey(perm)] = concScenarioFn(sc, perm)
+			if hasCredit(sc) {
+				schedScenarios["c09-"+sc.Name+"#"+permKey(perm)+"!nocredit"] = concScenarioFn(sc, perm, true)
+			}
 		}
 	}
 	checks["C09"] = func(t *testing.T) int { return concCheck(t, "C09") }
 	c10Schedules = func(t *testing.T, rep *Report, pool *Pool) any {
 		return runConc(t, rep, pool, []string{"create-create-new-supi", "create-create-two-subscribers", "create-create-known-supi", "create-create-same-consumer", "create-create-same-consumer-new-supi", "create-create-prefix-supis", "create-create-create"})
 	}
+}
+
+func hasCredit(sc concScenario) bool {
+	for _, op := range sc.Conc {
+		if op.K == "recharge" && op.Amt != 0 {
+			return true
+		}
+	}
+	return false
 }
 
 func permKey(p []int) string {
@@ -350,6 +373,22 @@ func runConc(t *testing.T, rep *Report, pool *Pool, names []string) []map[string
 		for _, p := range perms {
 			jobs = append(jobs, Job{Kind: "sched", Args: mustJSON(SchedArgs{Scen: "c09-" + sc.Name + "#" + permKey(p)})})
 		}
+		// for scenarios with an external credit: the serial observations of a world without that credit, used only to
+		// classify a non-serializable observation as "the credit was overwritten"
+		noCredit := map[string]bool{}
+		if hasCredit(sc) {
+			var nj []Job
+			for _, p := range perms {
+				nj = append(nj, Job{Kind: "sched", Args: mustJSON(SchedArgs{Scen: "c09-" + sc.Name + "#" + permKey(p) + "!nocredit"})})
+			}
+			for _, r := range pool.RunAll(nj) {
+				var out SchedOut
+				json.Unmarshal(r.Out, &out)
+				if r.Err == "" && r.Crash == "" && out.Engine == "" {
+					noCredit[out.Obs] = true
+				}
+			}
+		}
 		okRef := true
 		for i, r := range pool.RunAll(jobs) {
 			var out SchedOut
@@ -386,7 +425,11 @@ func runConc(t *testing.T, rep *Report, pool *Pool, names []string) []map[string
 				for a := range allowed {
 					refs = append(refs, oneLine(a, 700))
 				}
-				rep.Finding("not-serializable/"+sc.Name, fmt.Sprintf("[%s] %d schedule(s) end in an observation that no serial order of the %d requests produces: %s ;; serial observations: %s", sc.Name, n, len(sc.Conc), oneLine(obs, 900), strings.Join(refs, " || ")),
+				rule := "not-serializable/" + sc.Name
+				if noCredit[obs] {
+					rule = "credit-overwritten-by-account-write-back/" + sc.Name
+				}
+				rep.Finding(rule, fmt.Sprintf("[%s] %d schedule(s) end in an observation that no serial order of the %d requests produces: %s ;; serial observations: %s", sc.Name, n, len(sc.Conc), oneLine(obs, 900), strings.Join(refs, " || ")),
 					map[string]any{"scenario": "c09-" + sc.Name, "observation": obs, "kind": "outcome"})
 			}
 		}
